@@ -154,6 +154,8 @@ func msgSpaces(r *Run) []space {
 		subst = append(subst, substTrie{[]byte(m), all256(), 1})
 	}
 	sub1 := space{name: "msg/subst1x256", gen: unionTrie{subst}, cfgs: []Cfg{{HdrCap: -1, ValCap: -1}, {HdrCap: 2, ValCap: 1, Flags: uint(sipsp.SIPMsgSkipBodyF)}}, finalFlags: noMore, beyondErr: 1, beyondOk: 1, split: 1}
+	// messages of about 63,000 bytes with one very long element each, chunk boundaries at doubling positions
+	lchain := space{name: "msg/long-elements-63k", gen: unionTrie{longMsgChains()}, cfgs: []Cfg{{HdrCap: -1, ValCap: -1}, {HdrCap: 2, ValCap: 1, Offs: 3, Junk: "a"}}, finalFlags: noMore, beyondErr: 1, beyondOk: 1, split: 1}
 	if r.quick() {
 		// quick: offsets 0 only for the long messages, both offsets on the shallow trie
 		var f0 []Cfg
@@ -163,7 +165,7 @@ func msgSpaces(r *Run) []space {
 			}
 		}
 		sp := []space{
-			ltok, sub1,
+			ltok, lchain, sub1,
 			{name: "msg/long", gen: unionTrie{longs}, cfgs: f0, finalFlags: noMore, beyondErr: 1, beyondOk: 1, split: 1},
 			{name: "msg/trie<=1hdr", gen: msgTrie{strs(fl), strs(hm), 1, strs(blankMenu), strs(bodyMenu)}, cfgs: full, finalFlags: noMore, beyondErr: 1, beyondOk: 1, split: 2},
 			{name: "msg/trie<=2hdr", gen: msgTrie{strs(fl[:2]), strs(hdrLineMenuQuick), 2, strs(blankMenu[:2]), strs(bodyMenu)}, cfgs: red, finalFlags: noMore, beyondErr: 1, beyondOk: 1, split: 2},
@@ -171,7 +173,7 @@ func msgSpaces(r *Run) []space {
 		return sp
 	}
 	return []space{
-		ltok, sub1,
+		ltok, lchain, sub1,
 		{name: "msg/long", gen: unionTrie{longs}, cfgs: full, finalFlags: noMore, beyondErr: 1, beyondOk: 1, split: 1},
 		{name: "msg/trie<=1hdr", gen: msgTrie{strs(fl), strs(hm), 1, strs(blankMenu), strs(bodyMenu)}, cfgs: full, finalFlags: noMore, beyondErr: 1, beyondOk: 1, split: 2},
 		{name: "msg/trie<=2hdr", gen: msgTrie{strs(fl[:5]), strs(hm), 2, strs(blankMenu), strs(bodyMenu)}, cfgs: red, finalFlags: noMore, beyondErr: 1, beyondOk: 1, split: 2},
